@@ -141,11 +141,11 @@ def let_shapes(isa, tier, arities=None):
 def multiblock(isa, tier):
     """objects with more than three fields (2..4 linked blocks): (window start, kinds)"""
     b = BOUNDARY[isa]
-    ars = [4, 5] if tier == 'quick' else [4, 5, 6, 7, 8]
+    ars = [4, 5, 7] if tier == 'quick' else [4, 5, 6, 7, 8]
     out = []
     for ar in ars:
         if b is not None:
-            ps = sorted({0, max(0, b - 2), b}) if tier == 'quick' else sorted({0, b - ar, b - 2, b - 1, b, DEEP[isa]} - {-1, -2, -3})
+            ps = (sorted({0, max(0, b - 2), b}) if ar < 7 else [0, max(0, b - 2)]) if tier == 'quick' else sorted({0, b - ar, b - 2, b - 1, b, DEEP[isa]} - {-1, -2, -3})
         else:
             ps = [0, MAXVARS[isa] - ar - 1]
         ps = [p for p in ps if p >= 0 and p + ar + 1 <= MAXVARS[isa]]
